@@ -342,7 +342,8 @@ async def run_worker(loop, sc: dict, make=None, projector=inmem_projector, signa
         if state["stopped"] or not runners:
             return False
         state["stopped"] = True
-        rec.emit({"e": "stop", "dl": ("us", CLOCK.us + int(grace * 1e6) + SLACK_US)})
+        if not state.get("killed"):        # (a dead process is not asked to stop: nothing is expected of it any more)
+            rec.emit({"e": "stop", "dl": ("us", CLOCK.us + int(grace * 1e6) + SLACK_US)})
         for r in runners:
             if which is None or r.verif_wno == which + 1:
                 r.sync_stop_wait_and_cancel(grace)
